@@ -289,9 +289,9 @@ func execBig(r *Rec, rc bigRecipe, useDecoder bool) error {
 	if useDecoder {
 		site = "Decoder.Unmarshal"
 	}
-	in := ev.M{"type": rc.typeName(), "recipe": rc, "cells": cells, "bits": bits, "capped": capped, "val": false, "n": rc.N}
+	in := ev.M{"type": rc.typeName(), "recipe": rc, "cells": cells, "bits": bits, "capped": capped, "val": false, "n": rc.N, "use": ""}
 	var p reflect.Value
-	r.CallPost("Decode", site, class, in, []string{"type", "cells", "bits", "capped", "val", "n"}, func(out ev.M) error {
+	r.CallPost("Decode", site, class, in, []string{"type", "cells", "bits", "capped", "val", "n", "use"}, func(out ev.M) error {
 		p = reflect.New(t)
 		if useDecoder {
 			return tlb.NewDecoder().Unmarshal(c, p.Interface())
